@@ -700,3 +700,48 @@ mod tests {
         );
     }
 }
+
+#[cfg(flounder_verif)]
+#[allow(dead_code)]
+impl Searcher {
+    /// One full-window search at exactly `depth` (no shallower iterations, no clock).
+    pub fn verif_search_fixed(&mut self, board: &Board, depth: u8) -> (i32, Option<Move>) {
+        self.timer.start(None);
+        let result = self.search_position(board, depth);
+        (result.score, result.best_move)
+    }
+
+    pub fn verif_hash(&self, board: &Board) -> u64 {
+        self.zobrist.hash(board)
+    }
+
+    pub fn verif_tt_entries(&self) -> Vec<crate::transposition::Entry> {
+        self.transposition_table.verif_entries()
+    }
+
+    pub fn verif_repetition_len(&self) -> usize {
+        self.repetition.len()
+    }
+
+    /// Would a search rooted at `root` treat `successor` (a position one ply below
+    /// the root) as a draw by repetition? Brackets the query exactly like
+    /// `search_position` brackets a search.
+    pub fn verif_is_repetition_draw(&mut self, root: &Board, successor: &Board) -> bool {
+        self.repetition.push(self.zobrist.hash(root));
+        let draw = self.is_draw_by_repetition(successor);
+        self.repetition.pop();
+        draw
+    }
+
+    /// Replaces all state that survives between searches (hash keys included)
+    /// but keeps the immutable lookup tables.
+    pub fn verif_reset_state(&mut self) {
+        self.zobrist = ZobristTable::new();
+        self.transposition_table = TranspositionTable::new();
+        self.killer_moves = KillerMoves::new();
+        self.timer = SearchTimer::new();
+        self.repetition = RepetitionTable::new();
+        self.history = HistoryTable::new();
+        self.evaluator = Evaluator::new();
+    }
+}
